@@ -1,38 +1,58 @@
 #!/usr/bin/env python3
-"""Run the registered checks against every seeded property-breaking change:
+"""Run the registered checks against every seeded property-breaking change.
+
+Default: on a scratch worktree of /repo under $TMPDIR (GBASIS_REPO points the checks at it; evidence and replays of
+these runs go to a scratch directory), which is removed afterwards.  With --in-place the prescribed sequence is used:
    git -C /repo apply <patch>; ./vcheck <prop> --tier <tier>; git -C /repo checkout -- .
-Writes seeded/RESULTS.json (which checks catch which change).  /repo is always restored."""
-import json, os, subprocess, sys, glob, time
+Writes seeded/RESULTS_<tier>.json (which checks catch which change)."""
+import json, os, subprocess, sys, glob, time, tempfile, shutil
 HERE = os.path.dirname(os.path.abspath(__file__))
 REPO = "/repo"
-tier = sys.argv[1] if len(sys.argv) > 1 else "quick"
-only = sys.argv[2:] or None
+args = [a for a in sys.argv[1:] if not a.startswith("--")]
+inplace = "--in-place" in sys.argv
+tier = args[0] if args else "quick"
+only = args[1:] or None
 res = {}
-assert subprocess.run(["git", "-C", REPO, "status", "--porcelain", "--untracked-files=no"], capture_output=True, text=True).stdout.strip() == "", "repo not clean"
-for d in sorted(glob.glob(os.path.join(HERE, "seeded", "*", ""))):
-    sid = os.path.basename(os.path.dirname(d))
-    if only and sid not in only:
-        continue
-    meta = json.load(open(os.path.join(d, "meta.json")))
-    patch = os.path.join(d, "patch.diff")
-    r = subprocess.run(["git", "-C", REPO, "apply", "--whitespace=nowarn", patch], capture_output=True, text=True)
-    if r.returncode != 0:
-        res[sid] = {"error": "patch does not apply: " + r.stderr[:300]}
-        continue
-    try:
-        out = {}
-        for prop in meta.get("checks", [meta["property"]]):
-            t = time.time()
-            p = subprocess.run([os.path.join(HERE, "vcheck"), prop, "--tier", tier], capture_output=True, text=True, cwd=HERE)
-            viol = [l for l in p.stdout.splitlines() if l.startswith("VIOLATION")]
-            out[prop] = {"exit": p.returncode, "violations": len(viol), "confirmed_by_native_replay": sum(1 for l in viol if not l.rstrip().endswith("no-failing-input-found")),
-                         "first": viol[0][:300] if viol else None, "secs": round(time.time() - t, 1), "summary": p.stdout.strip().splitlines()[-1][:200] if p.stdout.strip() else ""}
-        res[sid] = {"property": meta["property"], "results": out, "caught": any(v["exit"] == 1 for v in out.values())}
-    finally:
-        subprocess.run(["git", "-C", REPO, "checkout", "--", "."], check=True)
-    print(sid, json.dumps(res[sid])[:400], flush=True)
+scratch = None
+env = dict(os.environ)
+if inplace:
+    assert subprocess.run(["git", "-C", REPO, "status", "--porcelain", "--untracked-files=no"], capture_output=True, text=True).stdout.strip() == "", "repo not clean"
+    target = REPO
+else:
+    scratch = tempfile.mkdtemp(prefix="gbasis-seeded-")
+    target = os.path.join(scratch, "repo")
+    subprocess.run(["git", "-C", REPO, "worktree", "add", "-q", "--detach", target, "HEAD"], check=True)
+    env.update(GBASIS_REPO=target, VERIF_EVIDENCE_DIR=os.path.join(scratch, "evidence"), VERIF_REPLAY_DIR=os.path.join(scratch, "replays"))
+try:
+    for d in sorted(glob.glob(os.path.join(HERE, "seeded", "*", ""))):
+        sid = os.path.basename(os.path.dirname(d))
+        if only and sid not in only:
+            continue
+        meta = json.load(open(os.path.join(d, "meta.json")))
+        patch = os.path.join(d, "patch.diff")
+        r = subprocess.run(["git", "-C", target, "apply", "--whitespace=nowarn", patch], capture_output=True, text=True)
+        if r.returncode != 0:
+            res[sid] = {"error": "patch does not apply: " + r.stderr[:300]}
+            print(sid, res[sid], flush=True)
+            continue
+        try:
+            out = {}
+            for prop in meta.get("checks", [meta["property"]]):
+                t = time.time()
+                p = subprocess.run([os.path.join(HERE, "vcheck"), prop, "--tier", tier], capture_output=True, text=True, cwd=HERE, env=env)
+                viol = [l for l in p.stdout.splitlines() if l.startswith("VIOLATION")]
+                out[prop] = {"exit": p.returncode, "violations": len(viol), "confirmed_by_native_replay": sum(1 for l in viol if not l.rstrip().endswith("no-failing-input-found")),
+                             "first": viol[0][:300] if viol else None, "secs": round(time.time() - t, 1), "summary": p.stdout.strip().splitlines()[-1][:200] if p.stdout.strip() else ""}
+            res[sid] = {"property": meta["property"], "results": out, "caught": any(v["exit"] == 1 for v in out.values()),
+                        "caught_by_own_check": out.get(meta["property"], {}).get("exit") == 1}
+        finally:
+            subprocess.run(["git", "-C", target, "checkout", "--", "."], check=True)
+        print(sid, json.dumps(res[sid])[:400], flush=True)
+finally:
+    if scratch:
+        subprocess.run(["git", "-C", REPO, "worktree", "remove", "--force", target])
+        shutil.rmtree(scratch, ignore_errors=True)
 out_path = os.path.join(HERE, "seeded", "RESULTS_%s.json" % tier)
 allres = json.load(open(out_path)) if os.path.exists(out_path) else {}
 allres.update(res)
 json.dump(allres, open(out_path, "w"), indent=1, sort_keys=True)
-# evidence files were rewritten by runs on changed trees: refresh them on the unchanged tree is the caller's job
